@@ -28,10 +28,15 @@ def one(name, pids, tier):
             lines = [l for l in p.stdout.splitlines() if l.startswith(('VIOLATION', 'UNDECIDED', 'CHECKER-ERROR', 'KNOWN'))]
             ev = {}
             try:
-                ev = json.load(open(os.path.join(ROOT, 'evidence', pid + '.json')))
+                ev = json.load(open(os.path.join(ROOT, 'evidence_scratch', pid + '.json')))
             except Exception:
                 pass
-            out[pid] = {'exit': p.returncode, 'lines': [l[:200] for l in lines][:6], 'stderr': p.stderr[-300:] if p.returncode not in (0, 1) else ''}
+            cov = ev.get('coverage', {})
+            failed = [f['name'] for f in cov.get('failed_obligations', [])]
+            st = (cov.get('bounded_standins') or [{}])[0]
+            out[pid] = {'exit': p.returncode, 'lines': [l[:200] for l in lines][:6], 'stderr': p.stderr[-300:] if p.returncode not in (0, 1) else '',
+                        'failed_obligations': failed[:6], 'n_failed': len(failed), 'undecided': len(cov.get('undecided', [])),
+                        'native': st.get('result'), 'native_detail': [f.get('detail', '')[:160] for f in st.get('failures', [])][:2]}
     finally:
         shutil.rmtree(scratch, ignore_errors=True)
     return name, out
@@ -63,5 +68,10 @@ def main():
             own = '' if pid == prop_of(name) else ' (other property)'
             print('%-22s %s %-8s%s %s' % (name, pid, tag, own, ' | '.join(o['lines'])[:260]), flush=True)
     json.dump(res, open(os.path.join(ROOT, 'seeded', '_last_run.json'), 'w'), indent=1)
+    allp = os.path.join(ROOT, 'seeded', '_results.json')
+    acc = json.load(open(allp)) if os.path.exists(allp) else {}
+    for k, v in res.items():
+        acc.setdefault(k, {}).update(v if isinstance(v, dict) else {})
+    json.dump(acc, open(allp, 'w'), indent=1)
 if __name__ == '__main__':
     main()
